@@ -24,33 +24,12 @@ def product_of(banner):
     return None, None
 
 
-def eval_case(case):
-    lists, banner = case['lists'], case['banner']
-    spec = {'banner': banner, 'kex': lists['kex'], 'key': lists['key'], 'enc': lists['enc'], 'mac': lists['mac'], 'enc_c': case.get('enc_c'), 'mac_c': case.get('mac_c')}
-    if case.get('probes'):
-        spec['hostkeys'] = {k: {'t': 'rsa', 'bits': case['rsa_bits']} for k in ('ssh-rsa', 'rsa-sha2-256', 'rsa-sha2-512')}
-        spec['hostkeys']['ssh-ed25519'] = {'t': 'ed25519'}
-        spec['moduli'] = [case['gex_bits']]
-        spec['gex_style'] = 'openssh' if case['gex_bits'] == 2048 else 'roundup'
+def check_document(doc, lists, banner, fails):
+    """The relations of the statement, inside one JSON report.  Returns (rated dict, recs, recognised, product)."""
     db = gens.db()
-    fails = []
-    outs = {}
-    for rend in ('json', 'text'):
-        net = fakenet.FakeNet()
-        net.add('h', 22, fakenet.Server(spec))
-        r = drive.run_cli(['-n'] + (['-j'] if rend == 'json' else []) + ['--skip-rate-test', 'h'], net)
-        if r.exc or r.hang or r.code not in (0, 2, 3):
-            fails.append([drive.crash_sig(r) if r.exc else 'no-report', r.brief()])
-            return mkres(case, nt=True, classes=['crashed'], fails=fails)
-        outs[rend] = r
-    doc = json.loads(outs['json'].out)
     jr = report.JsonReport(doc)
-    tr = report.TextReport(outs['text'].out)
-    recs = jr.recs()                                   # (level, action, cat, name, notes)
+    recs = jr.recs()
     jset = {(a, c, n) for _, a, c, n, _ in recs}
-    tset = {({'-': 'del', '+': 'add', '!': 'chg'}[s], c, n) for s, n, c, _, _ in tr.rec}
-    if jset != tset:
-        fails.append(['text-and-json-recommendations-differ', 'only json %r, only text %r' % (sorted(jset - tset)[:4], sorted(tset - jset)[:4])])
     product, version = product_of(banner)
     recognised_versioned = product is not None
     recognised = recognised_versioned or banner in UNVERSIONED
@@ -119,6 +98,65 @@ def eval_case(case):
     else:
         if recs:
             fails.append(['recommendations-for-unrecognised-software', '%s: %r' % (banner, recs[:3])])
+    return rated, recs, recognised, product
+
+
+def eval_seq(case):
+    """Several servers audited in one invocation: each report must satisfy the same relations on its own."""
+    import os
+    net = fakenet.FakeNet()
+    hosts = []
+    for i, sv in enumerate(case['servers']):
+        h = 's%d' % i
+        hosts.append(h)
+        spec = {'banner': sv['banner'], 'kex': sv['lists']['kex'], 'key': sv['lists']['key'], 'enc': sv['lists']['enc'], 'mac': sv['lists']['mac'], 'hostkeys': {'ssh-ed25519': {'t': 'ed25519'}}, 'moduli': sv.get('moduli', []), 'gex_style': sv.get('gex_style', 'roundup')}
+        net.add(h, 22, fakenet.Server(spec))
+    tf = drive.tmpfile('\n'.join(hosts) + '\n')
+    try:
+        r = drive.run_cli(['-n', '-j', '--skip-rate-test', '--threads', '1', '-T', tf], net)
+    finally:
+        os.unlink(tf)
+    fails = []
+    if r.exc or r.code not in (0, 2, 3):
+        return mkres(case, nt=True, classes=['seq', 'crashed'], fails=[[drive.crash_sig(r) if r.exc else 'no-report', r.brief()]])
+    docs = {d['target'].split(':')[0]: d for d in json.loads(r.out) if isinstance(d, dict) and 'target' in d}
+    for i, sv in enumerate(case['servers']):
+        f2 = []
+        check_document(docs['s%d' % i], sv['lists'], sv['banner'], f2)
+        fails += [[sig, 'multi-target run, server %d of %d: %s' % (i + 1, len(case['servers']), d)] for sig, d in f2]
+    return mkres(case, nt=True, classes=['seq', 'n:%d' % len(case['servers'])], fails=fails[:6])
+
+
+def eval_case(case):
+    if case.get('kind') == 'seq':
+        return eval_seq(case)
+    lists, banner = case['lists'], case['banner']
+    spec = {'banner': banner, 'kex': lists['kex'], 'key': lists['key'], 'enc': lists['enc'], 'mac': lists['mac'], 'enc_c': case.get('enc_c'), 'mac_c': case.get('mac_c')}
+    if case.get('probes'):
+        spec['hostkeys'] = {k: {'t': 'rsa', 'bits': case['rsa_bits']} for k in ('ssh-rsa', 'rsa-sha2-256', 'rsa-sha2-512')}
+        spec['hostkeys']['ssh-ed25519'] = {'t': 'ed25519'}
+        spec['moduli'] = [case['gex_bits']]
+        spec['gex_style'] = 'openssh' if case['gex_bits'] == 2048 else 'roundup'
+    db = gens.db()
+    fails = []
+    outs = {}
+    for rend in ('json', 'text'):
+        net = fakenet.FakeNet()
+        net.add('h', 22, fakenet.Server(spec))
+        r = drive.run_cli(['-n'] + (['-j'] if rend == 'json' else []) + ['--skip-rate-test', 'h'], net)
+        if r.exc or r.hang or r.code not in (0, 2, 3):
+            fails.append([drive.crash_sig(r) if r.exc else 'no-report', r.brief()])
+            return mkres(case, nt=True, classes=['crashed'], fails=fails)
+        outs[rend] = r
+    doc = json.loads(outs['json'].out)
+    jr = report.JsonReport(doc)
+    tr = report.TextReport(outs['text'].out)
+    recs = jr.recs()                                   # (level, action, cat, name, notes)
+    jset = {(a, c, n) for _, a, c, n, _ in recs}
+    tset = {({'-': 'del', '+': 'add', '!': 'chg'}[s], c, n) for s, n, c, _, _ in tr.rec}
+    if jset != tset:
+        fails.append(['text-and-json-recommendations-differ', 'only json %r, only text %r' % (sorted(jset - tset)[:4], sorted(tset - jset)[:4])])
+    rated, recs, recognised, product = check_document(doc, lists, banner, fails)
     n_rated = sum(1 for v in rated.values() if v[0] or v[1])
     nt = recognised and n_rated > 0
     cl = ['product:%s' % (product or ('unversioned' if recognised else 'unrecognised')), 'rated:%d' % min(n_rated, 5), 'recs:%d' % min(len(recs), 8)] + (['probes'] if case.get('probes') else [])
@@ -167,10 +205,39 @@ def strat_case():
 
 
 def valid_case(case):
+    if case.get('kind') == 'seq':
+        return len(case['servers']) >= 2
     return all(len(case['lists'][c]) >= 1 for c in CATS)
+
+
+NO_SHRINK_KEYS = ('servers',)
+
+
+def strat_seq():
+    """2-3 servers in one invocation; the first ones are chosen among those that make the tool record something
+    (OpenSSH 2048-bit GEX fallback, small GEX modulus, Terrapin exposure)."""
+    special = [
+        {'banner': 'SSH-2.0-OpenSSH_8.0', 'lists': {'kex': ['curve25519-sha256', 'diffie-hellman-group-exchange-sha256'], 'key': ['ssh-ed25519'], 'enc': ['aes128-ctr'], 'mac': ['hmac-sha2-256']}, 'moduli': [], 'gex_style': 'openssh'},
+        {'banner': 'SSH-2.0-OpenSSH_7.4', 'lists': {'kex': ['diffie-hellman-group-exchange-sha256', 'diffie-hellman-group-exchange-sha1'], 'key': ['ssh-ed25519'], 'enc': ['chacha20-poly1305@openssh.com', 'aes128-cbc'], 'mac': ['hmac-sha1-etm@openssh.com']}, 'moduli': [1024], 'gex_style': 'roundup'},
+        {'banner': 'SSH-2.0-dropbear_2020.81', 'lists': {'kex': ['diffie-hellman-group-exchange-sha256'], 'key': ['ssh-ed25519', 'ssh-dss'], 'enc': ['3des-cbc', 'aes128-ctr'], 'mac': ['hmac-md5']}, 'moduli': [3072], 'gex_style': 'roundup'},
+    ]
+
+    def build(t):
+        first, rest = t
+        servers = [special[first % len(special)]]
+        for c in rest:
+            lists = dict(c['lists'])
+            lists['kex'] = lists['kex'] + ['diffie-hellman-group-exchange-sha256']
+            servers.append({'banner': c['banner'], 'lists': lists, 'moduli': [3072, 1024, 2048][len(lists['mac']) % 3], 'gex_style': 'roundup'})
+        for sv in servers:
+            if not isinstance(sv.get('moduli'), list):
+                sv['moduli'] = [sv['moduli']]
+        return {'kind': 'seq', 'servers': servers}
+    return st.tuples(st.integers(0, 5), st.lists(strat_case().filter(lambda c: not c.get('probes')), min_size=1, max_size=2)).map(build)
 
 
 def run(ctx):
     ctx.hyp('strat_case', 20000 if ctx.quick else 250000, label=1)
+    ctx.hyp('strat_seq', 1500 if ctx.quick else 20000, label=2)
     return ctx.finish('exploration', 'Hypothesis peers over the database (1-6 names per category, gss-* and unknown names mixed in, 1/3 with host-key and GEX probes answered at boundary sizes) x banners of OpenSSH / Dropbear / libssh / TinySSH at, just below and just above every first-appeared version in the table (plus multi-digit versions), recognised-but-unversioned products and unrecognised software; text and JSON; non-trivial = recognised product and at least one rated algorithm',
                       assumptions=['ratings are read from the same report (JSON notes); "knows in the identified version" = table entry has no version list or lists the product at a numerically <= version (server side)'])
